@@ -266,6 +266,7 @@ def _wrun(chunk):
 def replay_all(univ, cases, gens, procs=14, chunk=150, sample_ok=0):
     cases = sorted(cases, key=lambda c: c["d"])
     chunks = [cases[i:i + chunk] for i in range(0, len(cases), chunk)]
+    from bind import declgen, observe, trace_packet      # import errors must surface here, not kill pool workers silently
     ctx = multiprocessing.get_context("fork")
     mism = []
     n = 0
